@@ -130,7 +130,10 @@ def run(ctx):
                        "(client ip, client port, server ip) triples except in the same-cport pattern where server ips differ"]
     import m1_mainloop
     ctx.gen_tables.update(m1_mainloop.regen())      # reset statements of run() → lean/TLX/Gen/MainLoopConsts.lean
-    ctx.prove(["TLX.Props.C04"])
+    import translate                 # decision-logic functions re-translated from the source and proved equal to the model
+    _tm, _tt = translate.wire(ctx, "C04")
+    ctx.prove(["TLX.Props.C04"] + _tm)
+    ctx.require_theorems(_tt)
     ctx.require_theorems([t for t in m1_mainloop.THEOREMS if t.startswith("TLX.Props.C04.")])
     m1_mainloop.correspond(ctx)       # ties TLX.MainLoop to the real handle_packet / handle_quic_packet / run()
     explore(ctx)
